@@ -149,9 +149,17 @@ Definition cells_of (ls : list nat) (rs : rowsel) (cs : colsel) : res (list (Z *
   | RList [], CInt _ => Err EIndex                 (* empty float index arrays *)
   | RList rl, CInt c => Ok (map (fun r => (r, c)) rl)
   | RList rl, CList cl =>
+      (* the two index vectors are paired the way NumPy pairs index arrays, by broadcasting
+         (_convert_from_2d: np.broadcast_arrays): element by element when equally long, a one-entry vector
+         against every entry of the other; any other pair of lengths is rejected *)
       if Nat.eqb (length rl) (length cl)
       then match rl with [] => Err EIndex | _ => Ok (combine rl cl) end
-      else Err EReject
+      else match rl, cl with
+           | [], [_] | [_], [] => Err EIndex       (* empty float index arrays *)
+           | _, [c] => Ok (map (fun r => (r, c)) rl)
+           | [r], _ => Ok (map (fun c => (r, c)) cl)
+           | _, _ => Err EReject
+           end
   end.
 
 (* where(mask): positions of the True entries, row-major, through the mask's own row structure *)
